@@ -61,9 +61,16 @@ def events(r, kind=None, base=0.0, max_n=24, span=None):
 def related_events(r, ref, base=0.0):
     """An estimate related to ``ref`` in one of the ways fixtures lack."""
     kind = r.choice(["copy", "subset", "superset", "shift", "disjoint", "jitter",
-                     "independent", "double", "half", "offbeat", "threshold", "runs"])
+                     "independent", "double", "half", "offbeat", "threshold", "runs",
+                     "other-tempo"])
     if ref.size == 0 or kind == "independent":
         return events(r, base=base)
+    if kind == "other-tempo" and ref.size >= 3:
+        # an unrelated regular pulse over the same span (flat error histogram)
+        span = int((ref[-1] - ref[0]) * Q)
+        step = max(8, int(np.median(np.diff(ref)) * Q * r.choice([0.7, 0.6, 1.3, 0.45])))
+        start = int(ref[0] * Q) + r.randrange(0, step)
+        return np.array([(start + i * step) / Q for i in range(max(2, span // step + 1))])
     if kind == "runs" and ref.size >= 6 and float(np.min(np.diff(ref))) >= 16 / Q:
         # runs of well-placed beats separated by badly placed ones; run lengths
         # are drawn around 25 % of the interior beats (Goto's track criterion)
@@ -172,11 +179,26 @@ def boundaries(r, n=None, start=0, total=None, min_len=1, step=2):
     return [start + b for b in bs]
 
 
+def gapped_intervals(r, step=2):
+    """Time-ordered, possibly non-contiguous intervals on the 1/32 s lattice."""
+    n = r.randrange(1, 8)
+    t = r.choice([0, 0, 8, 64, 100])
+    iv = []
+    for _ in range(n):
+        if r.random() < 0.35:
+            t += step * r.randrange(1, 20)  # gap
+        d = step * r.randrange(1, 60)
+        iv.append([t / Q, (t + d) / Q])
+        t += d
+    return np.array(iv, dtype=float)
+
+
 LABEL_POOLS = [
     ["A", "B", "C", "D", "E", "F"],
     ["verse", "chorus", "bridge", "intro", "outro"],
     ["a", "A", "b", "B", "c"],
     ["Silence", "Verse", "verse", "Solo", "Z"],
+    ["A", "A ", " A", "B", "B  ", "a b"],   # distinct names that differ in whitespace
 ]
 
 
@@ -228,7 +250,7 @@ def related_notes(r, iv, hz, vel):
         if u < 0.15:
             continue
         da = r.choice([0, 0, 1, 2, 3, 4, -1, -2, -3, -4, 8, -8]) / Q
-        db = r.choice([0, 0, 1, 2, 4, 8, 16, -1, -2, -4, -8, -16, 32]) / Q
+        db = r.choice([0, 0, 1, 2, 3, 4, 5, 6, 8, 16, -1, -2, -3, -4, -5, -8, -16, 32]) / Q
         na = max(0.0, a + da)
         nb = max(na + 1 / Q, b + db)
         dp = r.choice([0, 0, 0, 0.25, -0.25, 0.5, -0.5, 1, -1, 12, -12, 0.375])
